@@ -44,6 +44,7 @@ def work(args):
         except Exception as e:
             out['errors'].append({'index': idx, 'seed': seed, 'error': traceback.format_exc()[-1500:]})
     runner.close_all()
+    out.pop('_reported', None)
     out['states'] = sorted(out['states'])
     out['nontrivial'] = sorted(out['nontrivial'])
     out['interleavings'] = sorted(out['interleavings'])
@@ -77,11 +78,13 @@ def one_run(P, prop, seed, idx, cfg, baseline, known_clauses, out):
         kn, new = judges.split_known(prop, viol, viol_base, known_clauses)
     for v in kn:
         out['known'][v['clause']] = out['known'].get(v['clause'], 0) + 1
-    seen = set()
+    seen = out.setdefault('_reported', {})
     for v in new:
-        if v['clause'] in seen:
+        # minimise at most twice per clause per worker chunk; further hits are only counted
+        if seen.get(v['clause'], 0) >= 2:
+            out['new_more'] = out.get('new_more', 0) + 1
             continue
-        seen.add(v['clause'])
+        seen[v['clause']] = seen.get(v['clause'], 0) + 1
         out['new'].append(report(P, prop, seed, idx, ops, v, baseline, known_clauses, main))
 
 
